@@ -16,7 +16,7 @@ for p in props:
             evidence_file=f"/verif/evidence/{p['id']}.json",
             replay_cmd_template=f"./check {p['id']} --replay {{path}}",
             engine="lvc",
-            level_claimed=dict(category="proof", text=c["text"], design_ref=c.get("design_ref", "DESIGN.md §4 " + p["id"])),
+            level_claimed=dict(category=c.get("category", "proof"), text=c["text"], design_ref=c.get("design_ref", "DESIGN.md §4 " + p["id"])),
             level_note=c["note"],
             technique=c.get("technique", "sidecar contracts on the real functions; VCs generated from the extracted jaxpr (jax.make_jaxpr of the working tree); discharged by z3 5.1 with cvc5 re-check"),
         ))
